@@ -30,6 +30,10 @@ is decided by the state at that moment (`showLine`): nothing (quiet / verbosity)
 registered in the output's formatter: the literal text; registered: the tag removed, with ANSI codes iff the output formats
 (`_format_output`) and the formatter is an `AnsiFormatter`.
 
+The shape of `create_io` taken here (a constructor call in every branch of the formatter selection, the outputs and the
+I/O constructed from them) is the text `tools/genparts/c09.py` matches in the source on every run before it regenerates
+`Gen/C09.lean`; `c17.app_hist` compares the state every handler finds with the real objects.
+
 Not modelled: the terminal dimensions, the streams (their `supports_ansi()` is a parameter: `IOEnv.streams`), what the
 application itself writes (help pages, error reports: C13, C04), `set_verbosity` rejecting other values than the four flags,
 a handler reaching the configuration (`command.application.config.style_set.add(..)` changes an object that is NOT per run).
